@@ -54,12 +54,29 @@ var runLens = []int{1, 2, 100, 4 * KiB, 8*KiB - 1, 8 * KiB, 8*KiB + 1, 8*KiB + 2
 func genOverlayPair(rt *rapid.T) (old, nw []byte, desc []string) {
 	oldLen := rapid.SampledFrom([]int{0, 1, 1000, 8*KiB + 1, 100 * KiB, 128*KiB - 1, 128 * KiB, 128*KiB + 1, 256 * KiB, 300 * KiB, 640*KiB + 5}).Draw(rt, "oldlen")
 	old = Bytes(rapid.Uint64().Draw(rt, "oldseed"), oldLen)
+	if oldLen > 128*KiB && rapid.IntRange(0, 4).Draw(rt, "oldperiodic") == 0 {
+		for i := 128 * KiB; i < oldLen; i++ {
+			old[i] = old[i-128*KiB]
+		}
+	}
 	target := rapid.SampledFrom([]int{0, 1, oldLen / 2, oldLen - 1, oldLen, oldLen + 1, oldLen + 9*KiB, oldLen + 200*KiB, 3 * 128 * KiB}).Draw(rt, "newlen")
 	if target < 0 {
 		target = 0
 	}
 	if target > 700*KiB {
 		target = 700 * KiB
+	}
+	if len(old) >= 128*KiB && target > len(old) && rapid.IntRange(0, 3).Draw(rt, "periodic") == 0 {
+		// new = old followed by a repetition of old's last window(s): the data past old's EOF equals
+		// what the previous window of the old file held
+		nw = append([]byte{}, old...)
+		for len(nw) < target {
+			nw = append(nw, old[len(old)-128*KiB:]...)
+		}
+		if rapid.Bool().Draw(rt, "periodiccut") {
+			nw = nw[:target]
+		}
+		return old, nw, []string{fmt.Sprintf("old(%d) + repeated last window up to %d", len(old), len(nw))}
 	}
 	same := rapid.Bool().Draw(rt, "startsame")
 	for len(nw) < target {
